@@ -4,13 +4,13 @@ use super::inputs::*;
 use crate::io::{Poison, ScriptedRead, POISONS};
 use crate::json::J;
 use crate::prng::{hash_str, mix};
-use crate::rd::{parse_scripted, parse_slice, Ev, MaxSz, Parse, RCfg};
+use crate::rd::{parse_scripted, parse_scripted_fin, parse_slice, Ev, MaxSz, Parse, RCfg};
 use crate::runner::{Case, PropDef, Tier};
 
 pub static DEF: PropDef = PropDef {
     id: "C04",
     level: "exploration",
-    rule: "each case: one input (valid / truncated / mutated / adversarial / mid-document; long first headers and payloads larger than the capacity included) and one configuration (tolerance subset, buffered subset, size limit). Baseline = parse of the whole input from a slice with the default capacity. Variants of the same parse: initial capacities {0,1,2,7,8,15,16,17,len-1,len,len+1,65536, random} x read schedules {whole, 1 byte, k bytes, random partitions, one short read then everything} x six poison patterns written behind the delivered bytes; for inputs of <= 9 bytes (quick) / <= 12 bytes (thorough) ALL 2^(n-1) partitions of the input into reads are enumerated. With end-of-stream closing disabled, temporary EOFs (Ok(0)) are injected at subsets of tag boundaries (every subset for <= 6 boundaries in thorough, random subsets otherwise): the iterator must return None at each pause and the concatenated items must equal the baseline with closing disabled. Oracle: identical (item, offset) sequence and identical first error including all fields. distinct = (capacity class, schedule class, where the first read boundary falls: inside id / size / payload / on a boundary, poison); non-trivial iff capacity or schedule differ from the baseline's.",
+    rule: "each case: one input (valid / truncated / mutated / adversarial / mid-document; long first headers and payloads larger than the capacity included) and one configuration (tolerance subset, buffered subset, size limit). Baseline = parse of the whole input from a slice with the default capacity. Variants of the same parse: initial capacities {0,1,2,7,8,15,16,17,len-1,len,len+1,65536, random} x read schedules {whole, 1 byte, k bytes, random partitions, one short read then everything} x six poison patterns written behind the delivered bytes; for inputs of <= 9 bytes (quick) / <= 12 bytes (thorough) ALL 2^(n-1) partitions of the input into reads are enumerated. With end-of-stream closing disabled, temporary EOFs (Ok(0)) are injected at subsets of tag boundaries (every subset for <= 6 boundaries in thorough, random subsets otherwise): the iterator must return None at each pause and the concatenated items must equal the baseline with closing disabled; a third of these runs then switch closing on after the final None (polled twice) and must end up equal to the baseline with closing. Oracle: identical (item, offset) sequence and identical first error including all fields. distinct = (capacity class, schedule class, where the first read boundary falls: inside id / size / payload / on a boundary, poison); non-trivial iff capacity or schedule differ from the baseline's.",
     assumptions: &["a Read implementation may scribble on the unused part of the buffer it is given (the poison patterns do)", "step/read budgets turn a hang into a recorded divergence"],
     cases_quick: 120_000,
     cases_thorough: 1_500_000,
@@ -245,12 +245,22 @@ fn run(c: &mut Case) {
                     let k = c.rng.urange(1, 9) * scale;
                     src = src.with_chunks(vec![], k);
                 }
-                let (var, _s, pauses) = parse_scripted(src.clone(), &cfg);
+                // a third of the pause runs finish by switching end-of-stream closing on after the last None: the
+                // result must then be the baseline *with* closing
+                let finalize = c.rng.chance(1, 3);
+                let (var, _s, pauses) = parse_scripted_fin(src.clone(), &cfg, finalize);
                 c.eval();
                 c.count("pause_runs_compared");
                 c.add("pauses_taken", pauses as u64);
+                // (when the parse without closing ends in an error — e.g. a buffered master cut short by the end of input —
+                // the final None is never reached and there is nothing to finalize)
+                let finalize = finalize && base_noclose.end == Ev::None;
+                let base_noclose = if finalize { &base } else { &base_noclose };
+                if finalize {
+                    c.count("pause_runs_finalized");
+                }
                 if var.items != base_noclose.items || var.end != base_noclose.end {
-                    let msg = diff_msg(&base_noclose, &var);
+                    let msg = diff_msg(base_noclose, &var);
                     // narrow class of the known limitation: a pause while a buffered (Full) master is being collected
                     let inside_buffered = inp.lay.iter().any(|l| l.is_master && cfg.buffered.contains(&l.id) && stops.iter().any(|p| *p >= l.data_start && (*p < l.end || (l.size.is_none() && *p <= l.end))));
                     c.violation(
